@@ -853,8 +853,15 @@ def fam_targeted(rng, kind):
     s["additionalProperties"] = False
     if rng.random() < 0.3:
       s["required"] = list(props)[:1]
-    if rng.random() < 0.25:
-      s["patternProperties"] = {rng.choice(["^zz", "^q_"]): {}}
+    if rng.random() < 0.4:
+      pat = rng.choice(["^zz", "^q_"])
+      s["patternProperties"] = {pat: {}}
+      if rng.random() < 0.7:   # keys the pattern allows, listed BEFORE the unknown ones: they are not offending keys
+        allowed = {pat[1:] + suffix: rng.choice([0, "s", None]) for suffix in rng.sample(["scale", "1", "_a"], rng.randint(1, 2))}
+        val_items = list(val.items())
+        val.clear()
+        val.update(allowed)
+        val.update(val_items)
     for k in rng.sample(["extra", "u", "uu", "w_1", "Z9", "_x", "été", "к"], rng.randint(1, 3)):
       if k not in props:
         val[k] = rng.choice([1, None, "s", [0]])
